@@ -208,6 +208,68 @@ def _wrappers(rep, tier, seed):
         return ok, {"pos": pos, "field": fld, "bin_edges": e * scale, "geo_scale": scale, "estimator": kind}, \
             (G[0], C[0]), (g, c)
 
+    def fam_masks_explicit(rng, latlon, encoding):
+        """>= 2 fields with per-field missing values that differ between fields, combined with an explicit
+        `mask=` array.  Definition: a (point, field) value that is missing counts as NaN for that field only;
+        a point is removed only if it is masked by the explicit mask or (masked arrays) masked in ALL fields."""
+        n = int(rng.integers(3, 9))
+        F = int(rng.integers(2, 4))
+        if latlon:
+            dim = 2
+            pos = np.vstack([rng.uniform(-70, 70, size=n), rng.uniform(-170, 170, size=n)])
+            e = edges(rng, False, 0.6)
+            lattice = False
+        else:
+            dim = int(rng.integers(1, 4))
+            lattice = rng.random() < 0.5
+            pos = points(rng, dim, n, lattice)
+            e = edges(rng, lattice)
+        vals = rng.normal(size=(F, n))
+        pmask = rng.random(n) < 0.3
+        if pmask.all():
+            pmask[0] = False
+        if not pmask.any():
+            pmask[int(rng.integers(0, n))] = True        # the explicit-mask branch must be taken
+        if encoding == "masked_array":
+            fm = rng.random((F, n)) < 0.35
+            # make sure the field masks DIFFER: some point masked in exactly one field, one in all fields
+            j = int(rng.integers(0, n))
+            fm[:, j] = False
+            fm[int(rng.integers(0, F)), j] = True
+            if n > 3:
+                fm[:, (j + 1) % n] = True
+            call_field = np.ma.array(vals.copy(), mask=fm)
+            kw = {}
+        else:
+            fm = np.zeros((F, n), dtype=bool)
+            row = int(rng.integers(0, F))                 # missing values in ONE field only
+            fm[row] = rng.random(n) < 0.4
+            fm[row, int(rng.integers(0, n))] = True
+            call_field = vals.copy()
+            if encoding == "nan":
+                call_field[fm] = np.nan
+                kw = {}
+            else:
+                call_field[fm] = -777.0
+                kw = {"no_data": -777.0}
+        removed = pmask.copy()
+        if encoding == "masked_array":
+            removed |= fm.all(axis=0)
+        ref_f = vals.copy()
+        ref_f[fm] = np.nan
+        keep = ~removed
+        kind = ["matheron", "cressie"][int(rng.integers(0, 2))]
+        if keep.sum() == 0:
+            return None
+        G, C, margin = brute_unstructured(pos[:, keep], ref_f[:, keep], e, kind, latlon=latlon)
+        if not lattice and margin < 1e-7:
+            return None
+        bc, g, c = vario_estimate(pos.copy(), call_field, e.copy(), estimator=kind, latlon=latlon, mask=pmask.copy(),
+                                  return_counts=True, **kw)
+        ok = close(g, G[0]) and np.array_equal(np.asarray(c), C[0])
+        return ok, {"pos": pos, "values": vals, "field_missing": fm, "explicit_mask": pmask, "encoding": encoding,
+                    "latlon": latlon, "bin_edges": e, "estimator": kind}, (G[0], C[0]), (g, c)
+
     def fam_directional(rng):
         dim = int(rng.integers(2, 4))
         n = int(rng.integers(2, 8))
@@ -290,6 +352,19 @@ def _wrappers(rep, tier, seed):
          "single field, Euclidean distance, dim 1-3, 2-8 points, lattice (exact ties with edges) and random points"),
         ("variogram.vario_estimate", "multi_field_missing", lambda r: fam_unstructured(r, True),
          "2-3 fields with missing values given as NaN / masked array / no_data value"),
+        ("variogram.vario_estimate", "explicit_mask+per_field_masked_array_euclid",
+         lambda r: fam_masks_explicit(r, False, "masked_array"),
+         "2-3 fields as ONE masked array with masks differing between fields + explicit mask= array, Euclidean, "
+         "both estimators; point removed only if in the explicit mask or masked in ALL fields"),
+        ("variogram.vario_estimate", "explicit_mask+per_field_masked_array_latlon",
+         lambda r: fam_masks_explicit(r, True, "masked_array"),
+         "same with great-circle distance"),
+        ("variogram.vario_estimate", "explicit_mask+nan_in_one_field",
+         lambda r: fam_masks_explicit(r, bool(r.integers(0, 2)), "nan"),
+         "explicit mask= array + NaN values in one of 2-3 fields only, Euclidean and lat-lon"),
+        ("variogram.vario_estimate", "explicit_mask+no_data_in_one_field",
+         lambda r: fam_masks_explicit(r, bool(r.integers(0, 2)), "no_data"),
+         "explicit mask= array + no_data values in one of 2-3 fields only, Euclidean and lat-lon"),
         ("variogram.vario_estimate", "latlon_great_circle", fam_latlon,
          "great-circle distance, geo_scale 1 and 6371"),
         ("variogram.vario_estimate", "directional", fam_directional,
@@ -352,6 +427,12 @@ def run(rep, tier, seed, only=None):
         kr.run(targets, kern_run.FUNCTIONAL_KINDS | {"nan", "div", "canary"}, only=only)
     if not only or "bounded" in only:
         _wrappers(rep, tier, seed)
+    if not only or "vario_estimate/" in only:
+        # symbolic capture of the kernel arguments (machinery of C09 layer B); runs last: it rebinds the
+        # kernels inside gstools.variogram.variogram to capture stubs in this process
+        from gsvc import contract
+        rep.stubs.add("compiled estimator kernels in variogram.py -> capture stubs (contracts/c09.py)")
+        contract.standard_run(rep, "C08", ["contracts.c08_wrappers"], tier, seed, only)
     rep.trust("T1 real arithmetic: doubles are mathematical reals plus a NaN flag on the field array; exact "
               "floating-point ties of a distance with a bin edge are decided as over the reals")
     rep.trust("lowering rules of gsvc/lower_pyx.py (dropped tokens listed under lowering_dropped); Cython/gcc (T6, see C15)")
@@ -377,6 +458,11 @@ def run(rep, tier, seed, only=None):
 
 
 def replay(path):
+    import json
+    rp = (json.load(open(path)).get("replay") or {})
+    if "contract" in rp:                      # symrun wrapper obligation
+        from gsvc import contract
+        return contract.standard_replay("C08", ["contracts.c08_wrappers"], path)
     import contracts.kernels as K
     from gsvc import kern_run
     return kern_run.replay_file(path, K, override=OVERRIDE)
